@@ -13,10 +13,15 @@ EXPLANATION = ("Static rules over quinn-udp / quinn MIR (Linux x86-64 build): (a
                "receive stride defaults to len and is overridden only by UDP_GRO; (e) offload degradation: EIO/EINVAL stores max_gso_segments = 1 and, the first time, "
                "re-prepares the message and retries; Interrupted loops, WouldBlock is returned; (f) batch splitting in the async endpoint by meta.len / meta.stride and "
                "field-for-field Transmit conversion; (g) the socket-wide UDP_SEGMENT option set by the GSO support probe is set back to 0 on every successful path, so that transmits "
-               "without an UDP_SEGMENT control message stay single datagrams. Kernel behaviour and non-Linux back ends are NOT decided.")
+               "without an UDP_SEGMENT control message stay single datagrams; (h) addresses on receive: msg_name / msg_namelen of a receive header are the sockaddr_storage "
+               "buffer and its size; decode_socket_addr builds SocketAddrV6::new from sin6_addr, host-order sin6_port, sin6_flowinfo, sin6_scope_id (in this order) only under "
+               "AF_INET6 and SocketAddrV4::new from sin_addr / host-order sin_port only under AF_INET, and returns nothing else as Ok; RecvMeta.addr is its result on the name "
+               "buffer, RecvMeta.dst_ip the value stored from in_pktinfo.ipi_addr / in6_pktinfo.ipi6_addr in the arm of that message. "
+               "Kernel behaviour and non-Linux back ends are NOT decided.")
 RULE = "rule instances = (rule, site) pairs over MIR call sites / stores / paths; non-trivial = bound to a real site"
 NOTE = ("Trusted: rustc MIR, the fact extractor incl. layout sizes of generic arguments, the Linux CMSG_ALIGN formula (16-byte cmsghdr, 8-byte alignment) and the table of "
-        "payload sizes / payload types the kernel attaches for each enabled receive option, the Linux numeric values of the (cmsg_level, cmsg_type) pairs and of EIO / EINVAL "
+        "payload sizes / payload types the kernel attaches for each enabled receive option, the Linux numeric values of the (cmsg_level, cmsg_type) pairs, of AF_INET / AF_INET6 and of EIO / EINVAL, "
+        "the parameter order of std::net::SocketAddrV4::new / SocketAddrV6::new and that sockaddr / pktinfo integers are in network byte order "
         "(match patterns are integers in MIR) and the io::ErrorKind discriminants of the pinned nightly std. Only the cfg(linux) x86-64 build is analysed.")
 
 
@@ -230,6 +235,18 @@ def rule_b(ctx):
         ctx.check(okp, 'b', 'control_pointer_is_the_buffer_' + fn, b, b.where(), 'msg_control = ctrl.0.as_mut_ptr()', 'msg_control does not point at the start of the control buffer: %s' % [D.render(d.rvalue(rv, i, j, 0))[:80] for i, j, rv in mc])
         il = _stores_of(b, 'msg_iovlen')
         ctx.check(bool(il) and all(d.rvalue(rv, i, j, 0)[:3] == ('const', 'int', '1') for i, j, rv in il), 'b', 'single_iovec_' + fn, b, b.where(), 'msg_iovlen = 1', 'msg_iovlen is not 1')
+    # the kernel writes the peer address into the caller's name buffer, all of it: msg_name = name.as_mut_ptr(), msg_namelen = its size
+    b = ctx.ufn('prepare_recv')
+    d = describer(F, b)
+    nm = [l for l in range(1, b.argc + 1) if 'sockaddr_storage' in b.locals[l][0]]
+    is_name = lambda x: len(nm) == 1 and x[0] == 'param' and x[1] == nm[0]
+    mn = [d.rvalue(rv, i, j, 0) for i, j, rv in _stores_of(b, 'msg_name')]
+    okn = bool(mn) and all(is_name(v) or (v[0] == 'call' and v[1].rsplit('::', 1)[-1] in ('as_mut_ptr', 'as_ptr') and len(v[3]) == 1 and is_name(v[3][0])) for v in mn)
+    ctx.check(okn, 'b', 'name_pointer_is_the_name_buffer', b, b.where(), 'msg_name = name.as_mut_ptr()', 'msg_name of a receive header does not point at the start of its sockaddr_storage buffer: %s' % [D.render(v)[:80] for v in mn])
+    szof = {c.bb for c in b.calls_to('mem::size_of') if c.ga == ['libc::sockaddr_storage']}
+    ml = [d.rvalue(rv, i, j, 0) for i, j, rv in _stores_of(b, 'msg_namelen')]
+    okl = bool(ml) and all((v[0] == 'call' and v[1] == 'mem::size_of' and not v[3] and v[4] in szof) or (_is_call(v, 'mem::size_of_val') and len(v[3]) == 1 and is_name(v[3][0])) for v in ml)
+    ctx.check(okl, 'b', 'namelen_is_sockaddr_storage', b, b.where(), 'msg_namelen = size_of::<sockaddr_storage>()', 'msg_namelen of a receive header is not the size of the name buffer (a sockaddr_in6 no longer fits / the kernel may write past it): %s' % [D.render(v)[:80] for v in ml])
     al = F.adt('cmsg::imp::Aligned') if [1 for p in F.adts if p.endswith('imp::Aligned')] else F.adt('Aligned')
     ctx.check(al['align'] >= 8, 'b', 'control_buffer_alignment', 'Aligned', '', 'repr(align(%d))' % al['align'], 'Aligned<T> alignment %d is below that of cmsghdr' % al['align'])
 
@@ -263,6 +280,7 @@ DECODE_ARMS = {
 }
 ECN_ARMS = ((0, 1), (0, 13), (41, 67))
 GRO_ARM = (17, 104)
+PKTINFO_ARMS = ((0, 8), (41, 50))
 
 
 def _decode_arms(ctx):
@@ -314,6 +332,33 @@ def _decode_arms(ctx):
         ctx.check(not msgs and bool(st), 'c', inst, dec, dec.where(), what % len(st), '; '.join(msgs) or 'no store of %s' % field)
     stored('stride', (GRO_ARM,), '%d stride store(s), from decode::<c_int>(UDP_GRO cmsg)', 'stride_from_gro_message')
     stored('ecn_bits', ECN_ARMS, '%d ecn_bits stores, one per IP_TOS / IP_RECVTOS / IPV6_TCLASS site', 'ecn_bits_from_tos_messages')
+
+    # destination address: dst_ip is stored, in the arm of each packet-info message, from the header-destination field of the
+    # structure decoded there (in_pktinfo.ipi_addr — not ipi_spec_dst, the local routing address — / in6_pktinfo.ipi6_addr)
+    def dst_of(v, c, key):
+        p = v[3][0] if v[0] == 'agg' and v[2].endswith('Option::Some') and len(v[3]) == 1 else None
+        if p is None:
+            return False
+        want = 'IpAddr::V4' if key == PKTINFO_ARMS[0] else 'IpAddr::V6'
+        if p[0] == 'agg':
+            if not (p[1] == 'adt' and p[2].endswith(want) and len(p[3]) == 1):
+                return False
+            p = p[3][0]
+        site = lambda x: is_site(x, c)
+        if key == PKTINFO_ARMS[0]:
+            return _from_network_order(p, 'u32', site, ('ipi_addr', 's_addr'), octets_ok=True)
+        return _copied(p, site, ('ipi6_addr', 's6_addr')) or _copied(_call1(_addr_value(p), 'u128::from_be_bytes') or (), site, ('ipi6_addr', 's6_addr'))
+    st = [(i, j, d.rvalue(rv, i, j, 0)) for i, j, rv in _stores_of(dec, 'dst_ip') if i in feas]
+    msgs, used = [], set()
+    for i, j, v in st:
+        ks = [k for k in PKTINFO_ARMS for c in arm.get(k, []) if dec.dominates(c.bb, i) and dst_of(v, c, k)]
+        used |= set(ks)
+        if not ks:
+            msgs.append('dst_ip is stored from %s' % D.render(v)[:80])
+    for k in PKTINFO_ARMS:
+        if k not in used:
+            msgs.append('the destination address of %s is not stored into dst_ip' % DECODE_ARMS[k][0])
+    ctx.check(not msgs, 'c', 'dst_ip_from_pktinfo_messages', dec, dec.where(), '%d dst_ip stores: Some(V4(in_pktinfo.ipi_addr)) / Some(V6(in6_pktinfo.ipi6_addr)), each in its own arm' % len(st), '; '.join(msgs))
 
 
 def _conveys_ecn(F, v):
@@ -633,6 +678,149 @@ def _effective_segment_size(ctx):
                   'effective_segment_size: on contents.len() <= segment_size it returns %s, otherwise %s%s' % ([D.render(v)[:40] for v in on_none], [D.render(v)[:40] for v in on_some], ', and elsewhere %s' % [D.render(v)[:40] for v in elsewhere] if elsewhere else ''))
 
 
+# Linux ABI values of the address families (socket(2)); `match c_int::from(name.ss_family)` is a SwitchInt on integers in MIR
+AF_INET, AF_INET6 = 2, 10
+# single-argument constructors that hand an address value on unchanged (From / Into / `as` are erased by the describer)
+ADDR_WRAPPERS = ('Ipv4Addr::from_octets', 'Ipv6Addr::from_octets', 'Ipv4Addr::from_bits', 'Ipv6Addr::from_bits')
+
+
+def _call1(x, *names):
+    """the only argument of x when x is a call of one of `names` (short method names) with one argument, else None"""
+    if isinstance(x, tuple) and x and x[0] == 'call' and len(x[3]) == 1 and x[1] in names:
+        return x[3][0]
+    return None
+
+
+def _fields_of(x, root_ok):
+    """names of the field projections leading from a value accepted by root_ok to x (outermost last); None when x is anything
+    else than a pure projection chain on such a value"""
+    names = []
+    while isinstance(x, tuple) and x and x[0] == 'field':
+        names.append(x[2])
+        x = x[1]
+    return tuple(reversed(names)) if isinstance(x, tuple) and x and root_ok(x) else None
+
+
+def _addr_value(x):
+    while _call1(x, *ADDR_WRAPPERS) is not None:
+        x = _call1(x, *ADDR_WRAPPERS)
+    return x
+
+
+def _copied(x, root_ok, path):
+    """x IS the field `path` of the structure (no arithmetic, no other field, no literal)"""
+    return _fields_of(_addr_value(x), root_ok) == tuple(path)
+
+
+def _from_network_order(x, ty, root_ok, path, octets_ok=False):
+    """x is the host value of the network-byte-order integer field `path` of type `ty`: ty::from_be(F) (= ty::to_be(F)),
+    ty::from_be_bytes(F.to_ne_bytes()), ty::from_ne_bytes(F.to_be_bytes()); with octets_ok also its bytes in memory order
+    F.to_ne_bytes() (the octets as they were on the wire).  The bare field, to_le / swap_bytes forms are not."""
+    x = _addr_value(x)
+    is_f = lambda v: v is not None and _fields_of(v, root_ok) == tuple(path)
+    if is_f(_call1(x, ty + '::from_be', ty + '::to_be')):
+        return True
+    if octets_ok and is_f(_call1(x, ty + '::to_ne_bytes')):
+        return True
+    a = _call1(x, ty + '::from_be_bytes')
+    if a is not None and is_f(_call1(a, ty + '::to_ne_bytes')):
+        return True
+    a = _call1(x, ty + '::from_ne_bytes')
+    return a is not None and is_f(_call1(a, ty + '::to_be_bytes'))
+
+
+def _pinned_values(F, body, is_subject, site_bb):
+    """integers k such that a branch dominating site_bb tests the subject (SwitchInt on it, or `subject ==/!= k`) and site_bb
+    is reachable over its `subject == k` edge but over no other edge of that branch"""
+    out = set()
+    for br in branches(F, body):
+        if not body.dominates(br.bb, site_bb):
+            continue
+        if is_subject(br.desc):
+            edges = list(br.edges)
+        else:
+            edges = None
+            rel = relation_on(br.desc, True)
+            if rel and rel[0] in ('Eq', 'Ne'):
+                for p, q in ((rel[1], rel[2]), (rel[2], rel[1])):
+                    if is_subject(p) and _int_const(q) is not None:
+                        eq, ne = (1, 0) if rel[0] == 'Eq' else (0, 1)
+                        edges = [(_int_const(q), br.target(eq)), (None, br.target(ne))]
+            if edges is None:
+                continue
+        via = {v for v, t in edges if site_bb in body.reachable_from(t, avoid=[br.bb])}
+        if len(via) == 1 and None not in via:
+            out |= via
+    return out
+
+
+def _peer_address(ctx, dr, rm, dd):
+    """'the source ... addresses are conveyed', receive side.  decode_socket_addr turns the sockaddr the kernel wrote into the
+    reported SocketAddr component by component: under ss_family == AF_INET6 (and only there) SocketAddrV6::new(ip, port,
+    flowinfo, scope_id) is given sin6_addr.s6_addr, the host-order value of sin6_port, sin6_flowinfo and sin6_scope_id of
+    that very sockaddr, in this order (the parameter order of std is trusted); under AF_INET SocketAddrV4::new(ip, port) is
+    given sin_addr.s_addr (network order: its in-memory bytes, or its host-order value) and the host-order value of
+    sin_port; every value returned as Ok is one of these two constructions; RecvMeta.addr is the Ok payload of
+    decode_socket_addr applied to the name buffer of the message, RecvMeta.dst_ip the decoded destination."""
+    F = ctx.facts
+    b = ctx.ufn('decode_socket_addr')
+    inst = 'source_address_decoded_field_for_field'
+    sa = [l for l in range(1, b.argc + 1) if 'sockaddr_storage' in b.locals[l][0]]
+    if len(sa) != 1:
+        ctx.bad('d', inst, b, b.where(), 'decode_socket_addr has no single sockaddr_storage parameter (%s): the decoded components cannot be bound to the kernel structure' % sa)
+        return
+    root = lambda x: x[0] == 'param' and x[1] == sa[0]
+    live = b.live_blocks()
+    v6 = [c for c in b.calls_to('SocketAddrV6::new') if c.bb in live]
+    v4 = [c for c in b.calls_to('SocketAddrV4::new') if c.bb in live]
+    ctx.floor('d', 'sockaddr_in6_decode_sites', len(v6), 1)
+    ctx.floor('d', 'sockaddr_in_decode_sites', len(v4), 1)
+    fam = lambda x: _fields_of(x, root) == ('ss_family',)
+    for c in v6 + v4:
+        a = [arg_desc(F, c, i) for i in range(len(c.args))]
+        if c in v6:
+            af, what = AF_INET6, 'SocketAddrV6::new(sin6_addr.s6_addr, from_be(sin6_port), sin6_flowinfo, sin6_scope_id) under AF_INET6'
+            comp = [('address', len(a) == 4 and (_copied(a[0], root, ('sin6_addr', 's6_addr')) or _copied(_call1(_addr_value(a[0]), 'u128::from_be_bytes') or (), root, ('sin6_addr', 's6_addr')))),
+                    ('port', len(a) == 4 and _from_network_order(a[1], 'u16', root, ('sin6_port',))),
+                    ('flow information', len(a) == 4 and _copied(a[2], root, ('sin6_flowinfo',))),
+                    ('scope id', len(a) == 4 and _copied(a[3], root, ('sin6_scope_id',)))]
+        else:
+            af, what = AF_INET, 'SocketAddrV4::new(sin_addr.s_addr.to_ne_bytes(), from_be(sin_port)) under AF_INET'
+            comp = [('address', len(a) == 2 and _from_network_order(a[0], 'u32', root, ('sin_addr', 's_addr'), octets_ok=True)),
+                    ('port', len(a) == 2 and _from_network_order(a[1], 'u16', root, ('sin_port',)))]
+        msgs = ['the %s is %s' % (nm, D.render(a[i])[:60] if i < len(a) else 'missing') for i, (nm, ok) in enumerate(comp) if not ok]
+        pin = _pinned_values(F, b, fam, c.bb)
+        if pin != {af}:
+            msgs.append('the construction is not confined to ss_family == %d (it is reached for %s)' % (af, sorted(pin) or 'families not decided by a test of ss_family'))
+        ctx.check(not msgs, 'd', inst, b, c.where(), what,
+                  'the peer address reported for a received datagram is not the one in the sockaddr written by the kernel: %s' % '; '.join(msgs))
+    # nothing else is returned as Ok
+    other = []
+    rets = ret_descs(F, b)
+    for _, rd in rets:
+        for alt in flat(rd):
+            if alt[0] == 'agg' and alt[2].endswith('Result::Err'):
+                continue
+            p = alt[3][0] if alt[0] == 'agg' and alt[2].endswith('Result::Ok') and len(alt[3]) == 1 else None
+            if p is not None and p[0] == 'agg' and len(p[3]) == 1 and (p[2].endswith('SocketAddr::V6') and any(is_site(p[3][0], c) for c in v6) or p[2].endswith('SocketAddr::V4') and any(is_site(p[3][0], c) for c in v4)):
+                continue
+            if p is not None and any(is_site(p, c) for c in v6 + v4):       # SocketAddr::from(SocketAddrV6::new(..)): From is erased
+                continue
+            other.append(D.render(alt)[:80])
+    ctx.check(bool(rets) and not other, 'd', 'decoded_address_is_returned', b, b.where(), 'Ok(SocketAddr::V4(..)) / Ok(SocketAddr::V6(..)) of the two constructions, or Err',
+              'decode_socket_addr returns an address that is not one of the checked SocketAddrV4 / SocketAddrV6 constructions: %s' % other)
+    # RecvMeta.addr / dst_ip
+    nm = [l for l in range(1, dr.argc + 1) if 'sockaddr_storage' in dr.locals[l][0]]
+    msgs = []
+    for c in rm:
+        v = _strip_ok_payload(dd.operand(c.field_op('addr'), c.bb, c.idx))
+        if not (len(nm) == 1 and _is_call(v, 'decode_socket_addr') and len(v[3]) == 1 and _roots(v[3][0]) == {nm[0]} and not any(x[0] in ('field', 'index', 'bin') for x in walk(v[3][0]))):
+            msgs.append('addr is %s, not decode_socket_addr(<the name buffer of this message>)' % D.render(v)[:70])
+        if not D.has_field(dd.operand(c.field_op('dst_ip'), c.bb, c.idx), 'dst_ip'):
+            msgs.append('dst_ip is not the destination decoded from the control messages')
+    ctx.check(bool(rm) and not msgs, 'd', 'recv_meta_addresses', dr, dr.where(), 'addr: decode_socket_addr(name)?, dst_ip: ctrl.dst_ip', 'RecvMeta no longer reports the addresses of the received datagram: %s' % '; '.join(msgs))
+
+
 def rule_d(ctx):
     F = ctx.facts
     _effective_segment_size(ctx)
@@ -675,6 +863,7 @@ def rule_d(ctx):
     rm = [c for c in constructions(F, 'RecvMeta', 'RecvMeta', crate='quinn_udp') if c.body.id == dr.id]
     ok = bool(rm) and all(D.has_param(dd.operand(c.field_op('len'), c.bb, c.idx), name='len') and D.has_field(dd.operand(c.field_op('stride'), c.bb, c.idx), 'stride') and D.has_field(dd.operand(c.field_op('ecn'), c.bb, c.idx), 'ecn_bits') for c in rm)
     ctx.check(ok, 'd', 'recv_meta_fields', dr, dr.where(), 'len, stride, ecn from the decoded control data', 'RecvMeta fields no longer come from the syscall length / decoded control messages')
+    _peer_address(ctx, dr, rm, dd)
 
 
 def rule_e(ctx):
